@@ -137,8 +137,31 @@ def check_variant(plan, run, s, peers, e0, mspec, mode, violate, stats):
         real = [len([e for e in evs if e.task == i]) for i in range(n)]
         if real != per:
             violate('total_evals_ne_calls', 'per-member evaluation counts %r, real cost calls per work item %r' % (per, real), **tags)
+    # (2b) every member was actually started and did work
+    idle = [i for i in range(n) if not per[i]]
+    if idle:
+        violate('member_never_started', 'members %r made no evaluation (per member: %r)' % (idle, per), **tags)
     # (3) starting points, box, constraint, penalty per member
     b = plan.get('bounds'); box = (tuple(b['lo']), tuple(b['hi'])) if b else None
+    # (3a) Lattice given a number of bins: whatever layout is drawn, the members start at the centres of a grid with that many cells
+    if plan['ensemble'] == 'Lattice' and not isinstance(plan['nbins'], list) and mspec is not None and plan['nested'] != 'DE' \
+       and not plan.get('constraint') and not (b and (b.get('tight') or b.get('clip') is not None)):
+        firsts = []
+        for i in range(n):
+            mine_ = [e for e in evs if e.task == i]
+            if mine_: firsts.append(tuple(mine_[0].x))
+        if len(firsts) == n:
+            stats['lattice_layouts_checked'] = stats.get('lattice_layouts_checked', 0) + 1
+            lo_ = b['lo'] if b else [-1e3] * plan['dim']; hi_ = b['hi'] if b else [1e3] * plan['dim']
+            cells = 1; okgrid = True
+            for d in range(plan['dim']):
+                vals = sorted(set(p[d] for p in firsts)); nd = len(vals); cells *= nd
+                step = 1. * abs(hi_[d] - lo_[d]) / nd
+                want_axis = [lo_[d] + (j + 0.5) * step for j in range(nd)]
+                if not all(abs(a - w) <= 1e-9 * max(1.0, abs(w)) for a, w in zip(vals, want_axis)): okgrid = False
+            if cells != int(plan['nbins']) or len(set(firsts)) != n or not okgrid:
+                violate('member_start_not_cell_centre', 'LatticeSolver(nbins=%d): the %d members started at %r, which are not the centres '
+                        'of a grid with %d cells over %r..%r' % (plan['nbins'], n, sorted(set(firsts)), plan['nbins'], lo_, hi_), **tags)
     con = plan.get('constraint'); pen = plan.get('penalty')
     centres = cell_centres(plan) if plan['ensemble'] == 'Lattice' else None
     for i in range(n):
@@ -191,9 +214,18 @@ def _run(plan, run, violate, stats):
         e0 = len(run.evals); b0 = run.ncross
         try:
             run.budget = b0 + 200000
-            ensembles.drive(s, peers, plan, run, mode, 400)
-        except env.SimHang:
-            violate('ensemble_did_not_return', 'under map %r in mode %s' % (mspec, mode), map=mspec['mode'], mode=mode)
+            # every member stops at the generation limit G at the latest: an ensemble needs at most G+2 map calls
+            G = (plan.get('limits') or [None])[0]
+            run.map_budget = (run.counts['map'] + G + 6) if G is not None else None
+            ensembles.drive(s, peers, plan, run, mode, (G + 6) if G is not None else 400)
+            run.map_budget = None
+            if mode == 'steps' and G is not None and not s.Terminated():
+                violate('ensemble_did_not_return', 'under map %r: a manual Step loop of %d steps did not terminate an ensemble whose '
+                        'generation limit is %d' % (mspec, G + 6, G), map=mspec['mode'], mode=mode)
+                return
+        except env.SimHang as e:
+            run.map_budget = None
+            violate('ensemble_did_not_return', 'under map %r in mode %s: %s' % (mspec, mode, str(e)[:160]), map=mspec['mode'], mode=mode)
             run.budget = run.ncross + 500000
             return
         except env.SimCrash:
